@@ -101,6 +101,9 @@ def py_gen(suite, seed, budget, outdir, corpus_lines):
             f.write("\n".join(corpus_lines) + "\n")
         args += ["--corpus", cp]
     rc, out = _py(args, 7200)
+    import shutil
+    if os.path.exists(os.path.join(outdir, "stats.json")):
+        shutil.copy(os.path.join(outdir, "stats.json"), os.path.join(outdir, "events.json"))
     return {"ok": rc == 0, "log": "harness exit status %s\n%s" % (rc, out)}
 
 
